@@ -12,6 +12,15 @@ release[0..2] with an absent component reading as the constant 0 (packaging's pa
 `pre` is None or (a|b|rc, n).  The round trip is judged on the normalised *string* (hence on the release tuple, its length
 included), not under Version equality (where 1.2 == 1.2.0): a writer that pads a 1- or 2-component release to three
 components, or drops the 4th, is reported for that release length, for final and a/b/rc versions alike.
+
+Decided for string surgery inside the converters: `regex.match / fullmatch / search` (groups and the whole match, group 0, as
+language quotients) and the strip family with a constant OR a computed argument.  `s.rstrip(x)` / `lstrip` / `strip` delete
+every end character that occurs in `x` — a set of characters, never the suffix / prefix `x` — and both interpreters evaluate
+exactly that: the symbolic one on languages (`_SI.strip_by_set`, per character set the argument can have), the finite one on
+concrete strings.  A converter that takes the release part with `version.rstrip(match.group())` therefore yields `1.2` for
+`1.2.1-rc.1` and the empty string for `0.0.0-a.0`; the returned language leaves the canonical form and the grid (which holds,
+floored, pre-releases whose last release digit recurs in the pre-release number and the all-zero release with number 0)
+names the versions.  A computed strip whose character set cannot meet the receiver's ends (`base.rstrip(label)`) is accepted.
 """
 
 from __future__ import annotations
@@ -27,8 +36,9 @@ from ..astx import call_name, last
 from ..index import AnchorError, FuncNode, _set_parents
 from ..selftest import Twin
 from .c32 import (
-    UNKNOWN, AInt, Alphabet, AObj, ARegex, ASeq, AStr, DFA, L_chars, L_empty, L_eps, L_union, L_word, SInterp, State, Unsupported,
-    collect_literals, collect_preds, hook_re_compile, module_consts, regex_charsets, regex_groups, regex_match_lang, regex_preds,
+    UNKNOWN, AInt, Alphabet, AObj, ARegex, ASeq, AStr, DFA, L_all, L_chars, L_count, L_empty, L_eps, L_union, L_word, SInterp, State, Unsupported,
+    collect_literals, collect_preds, hook_re_compile, lang_atoms, module_consts, regex_charsets, regex_groups, regex_match_lang, regex_preds,
+    regex_split_anchors,
 )
 
 EXPLANATION = (
@@ -38,7 +48,15 @@ EXPLANATION = (
     "(regex AST), the label guard must not raise, and what `semver_to_pep440` then returns (abstract interpretation, capture groups computed by "
     "language quotients) must lie in the canonical PEP 440 form N(.N){n-1}(a|b|rc)N; final releases must come back as N(.N){n-1}. The other "
     "direction starts from canonical semver N.N.N[-(a|b|rc).N]. Finite part: both functions' ASTs are evaluated (no repo code runs) on all "
-    "releases of length 1..4 over {0,7,10} x {final,a0,a4,b1,rc2,rc10} and the round trip must return the normalized original string (string comparison, so a release padded or truncated to three components is a failure even where Version equality would hide it). "
+    "releases of length 1..4 over {0,1,7,10} x {final,a0,a4,b1,rc2,rc10} and the round trip must return the normalized original string (string comparison, so a release padded or truncated to three components is a failure even where Version equality would hide it). "
+    "The grid holds (counted, floored) the pre-releases whose last release digit also occurs in the pre-release number (1.1b1, 7.0a0, 0.10rc10) and the all-zero releases with number 0 (0.0.0a0): "
+    "the inputs on which a character-level confusion between the release and the pre-release suffix shows. "
+    "String surgery in the converters is evaluated with Python's semantics in both halves: regex .match/.fullmatch/.search (capture groups and the whole match as language quotients; every match position is kept, not only the leftmost), "
+    "and str.strip/lstrip/rstrip with a constant or a COMPUTED argument = deletion of every end character that occurs in the argument (a character set, never 'remove this suffix'): "
+    "symbolically, the argument's language is partitioned by the set C of character classes its words consist of and rstrip_C(R) = rquot(R, C*) & (eps | Sigma*(Sigma - C1)), C1 = the classes of C that are a single character "
+    "(a class of several characters, 1-9, may or may not be deleted; receiver and argument are taken as independent: over-approximations, so no computable result is lost). "
+    "Hence `base = version.rstrip(match.group())` after a suffix-only regex is reported (1.2.1-rc.1 -> 1.2rc1, 0.0.0-a.0 -> a0: the returned language leaves N(.N){n-1}(a|b|rc)N, and the grid names the versions), "
+    "while `base.rstrip(label)` (letters cannot end a dotted digit string) is evaluated and accepted; the reason of a failed obligation points at every strip-family call with a non-literal argument in the converters (also listed as an observation). "
     "R2 (classification): detect_change_type's AST is evaluated on every ordered pair of versions with release length 1..4 over {0,1} and "
     "pre in {final, rc1, rc2} (8100 pairs, exhaustive for that domain) and on every ordered pair of 3-component releases over {0,1,3} x {final, rc1} "
     "(2916 pairs: growth by unequal amounts): result 'none' iff the new version is not greater under the PEP 440 "
@@ -62,6 +80,8 @@ VS = "dev_cli.versioning"
 P2S, S2P, DCT = "pep440_to_semver", "semver_to_pep440", "detect_change_type"
 LABELS = ("a", "b", "rc")
 FIXTURE = "fixtures/c34/planted.py"
+FIXTURE_STRIP = "fixtures/c34/planted_strip.py"
+FIXTURE_HARMLESS = "fixtures/c34/harmless_strip.py"
 LENGTHS = (1, 2, 3, 4)
 
 
@@ -87,7 +107,95 @@ class _SI(SInterp):
     # is not reproduced exactly is refused (AnchorError through Unsupported), never ignored.
     _LIST_MUTATORS = {"append", "extend", "insert", "remove", "pop", "clear", "sort", "reverse", "__setitem__", "__delitem__", "__iadd__"}
 
+    # ---- str.strip / lstrip / rstrip with a COMPUTED argument (`version.rstrip(match.group())`, `base.rstrip(num)`).
+    # The base interpreter models the strip family for a constant argument only and refuses anything else.  Python's semantics
+    # is the same in both cases: the argument is a *set of characters*, deleted from the end(s) for as long as the end character
+    # is in the set; it is never "remove this suffix / prefix".  Modelled here on languages:
+    #   * the argument's language M is partitioned by the set C of atoms its words are made of (`_charset_partition`; a
+    #     `-<label>.<N>` suffix has 9 such sets: 3 labels x {0}, {1-9}, {0,1-9});
+    #   * for each C:  rstrip_C(R) = rquot(R, C*)  ∩  (ε | Σ*·(Σ − C_sure)),   lstrip_C(R) = lquot(R, C*) ∩ (ε | (Σ − C_sure)·Σ*),
+    #     where C_sure are the atoms of C that stand for exactly one character: stripping cannot stop in front of them.  An atom
+    #     that stands for several characters (`1-9`) is in C when *some* of its characters is in the argument, so an end character
+    #     of that atom may or may not be deleted: both outcomes are kept;
+    #   * the result is the union over the C.  Receiver and argument are taken as independent strings of their languages.
+    # Every string the program can compute is in the result (over-approximation in the two places named above, none elsewhere);
+    # the concrete failing versions come from the finite grid, which runs the same AST on concrete strings.
+    _STRIP_FAMILY = ("strip", "lstrip", "rstrip")
+
+    def _computed_strip(self, e, st) -> bool:
+        if not (isinstance(e, ast.Call) and isinstance(e.func, ast.Attribute) and e.func.attr in self._STRIP_FAMILY and len(e.args) == 1):
+            return False
+        if not self._is_stringy(e.func.value, st):
+            return False
+        return not isinstance(self._maybe_const(e.args[0], st), str)
+
+    def _fst_step(self, e, st):
+        if self._computed_strip(e, st):
+            return None  # not a fixed transducer: evaluated by e_Call below
+        return super()._fst_step(e, st)
+
+    def _charset_partition(self, M: DFA) -> list[frozenset]:
+        """The sets C of atoms such that some word of M consists of exactly the atoms in C (ε gives the empty set)."""
+        atoms = sorted(lang_atoms(M))
+        if len(atoms) > 12:
+            raise Unsupported("strip() argument over too many character classes")
+        K = self.K
+        out: list[frozenset] = []
+
+        def rec(i: int, lang: DFA, chosen: frozenset) -> None:
+            if lang.is_empty():
+                return
+            if i == len(atoms):
+                out.append(chosen)
+                return
+            a = atoms[i]
+            rec(i + 1, lang & L_count(K, [a], 1, None), chosen | {a})
+            rec(i + 1, lang & L_count(K, [a], 0, 0), chosen)
+
+        rec(0, M, frozenset())
+        return out
+
+    def strip_by_set(self, R: DFA, C: frozenset, left: bool, right: bool) -> DFA:
+        K = self.K
+        if not C or R.is_empty():
+            return R
+        sure = {a for a in C if self.A.atoms[a].members is not None and len(self.A.atoms[a].members) == 1}
+        run = L_chars(K, C, 0, None)
+        stop = L_chars(K, set(range(K)) - sure)
+        out = R
+        if right:
+            out = out.rquot(run) & (L_eps(K) | L_all(K).concat(stop))
+        if left:
+            out = out.lquot(run) & (L_eps(K) | stop.concat(L_all(K)))
+        return out
+
     def e_Call(self, e, st):
+        if self._computed_strip(e, st):
+            if e.keywords:
+                raise Unsupported("strip() with keyword arguments")
+            m = e.func.attr
+            left, right = m in ("strip", "lstrip"), m in ("strip", "rstrip")
+            out = []
+            for (rv, av), s in self.evals([e.func.value, e.args[0]], st):
+                if rv is UNKNOWN:
+                    out.append((UNKNOWN, s))
+                    continue
+                if av is None:
+                    parts = [self.A.select("isspace")]
+                    arg_rand = False
+                elif isinstance(av, (AStr, str)):
+                    a = self.to_astr(av)
+                    parts = self._charset_partition(a.all)
+                    arg_rand = not a.rand.is_empty()
+                else:
+                    raise Unsupported(f"{m}() with an argument the string interpreter lost track of (`{ast.unparse(e.args[0])[:40]}`)")
+                r = self.to_astr(rv)
+
+                def apply(d: DFA) -> DFA:
+                    return L_union(self.K, [self.strip_by_set(d, C, left, right) for C in parts])
+
+                out.append((AStr(L_empty(self.K), apply(r.all)) if arg_rand else r.map(apply), s))
+            return out
         f = e.func
         if isinstance(f, ast.Attribute) and isinstance(f.value, ast.Name) and f.attr in self._LIST_MUTATORS and not e.keywords:
             cur = st.env.get(f.value.id)
@@ -185,6 +293,7 @@ class _Sym:
             raise AnchorError(f"C34: cannot build the alphabet: {e}")
         self.K = self.A.K
         self.reader_pattern: str | None = None
+        self.reader_lang: DFA | None = None  # subjects on which the reader's regex call (.match / .fullmatch / .search) succeeds
 
     # languages
     def lit(self, s: str) -> DFA:
@@ -226,51 +335,74 @@ class _Sym:
                           major=comps[0], minor=comps[1], micro=comps[2], is_prerelease=bool(pre), is_postrelease=False, is_devrelease=False,
                           base_version=AStr(sym.release(n))), st)]
 
-        def h_match(ip, node, args, kw, st):
-            rx, s = args[0], args[1] if len(args) > 1 else UNKNOWN
-            if not isinstance(rx, ARegex) or not isinstance(s, AStr):
-                return [(UNKNOWN, st)]
-            sym.reader_pattern = rx.pattern
-            try:
-                L = regex_match_lang(ip.A, rx.pattern, strict_end=True)
-                items = regex_groups(ip.A, rx.pattern)
-            except Unsupported as e:
-                raise AnchorError(f"C34: reader regex `{rx.pattern}` is outside the supported subset: {e}")
-            subj = s.all
-            hit, miss = subj & L, subj - L
-            out = []
-            arg = node.args[0] if getattr(node, "args", None) else None
-            if not hit.is_empty():
-                groups = {}
-                for i, (lang, g) in enumerate(items):
-                    if g is None:
-                        continue
-                    pre_l = L_eps(ip.K)
-                    for l2, _g in items[:i]:
-                        pre_l = pre_l.concat(l2)
-                    suf_l = L_eps(ip.K)
-                    for l2, _g in items[i + 1:]:
-                        suf_l = suf_l.concat(l2)
-                    groups[g] = AStr(lang & hit.lquot(pre_l).rquot(suf_l))
-                gs = tuple(groups[k] for k in sorted(groups))
-                st2 = st.set(arg.id, AStr(hit)) if isinstance(arg, ast.Name) else st
-                out.append((AObj("@match", groups=gs), st2))
-            if not miss.is_empty():
-                st3 = st.set(arg.id, AStr(miss)) if isinstance(arg, ast.Name) else st
-                out.append((None, st3))
-            return out
+        def mk_match(mode: str):
+            """`regex.match / fullmatch / search(subject)`.  The languages of the capture groups — and of the whole match, group 0 —
+            are left/right quotients of the matched subject language by what the pattern puts before / after them.  `search` on a
+            pattern without `^` may start anywhere (Σ* in front); a pattern without `$` (and not `fullmatch`) may stop anywhere
+            (Σ* behind).  Every position at which the pattern can match is kept, not only the leftmost (over-approximation)."""
+
+            def h_match(ip, node, args, kw, st):
+                rx, s = args[0], args[1] if len(args) > 1 else UNKNOWN
+                if not isinstance(rx, ARegex) or not isinstance(s, AStr):
+                    return [(UNKNOWN, st)]
+                sym.reader_pattern = rx.pattern
+                try:
+                    L = regex_match_lang(ip.A, rx.pattern, strict_end=True, anchored_start=mode != "search")
+                    items = regex_groups(ip.A, rx.pattern)
+                    _it, begin, end = regex_split_anchors(rx.pattern)
+                except Unsupported as e:
+                    raise AnchorError(f"C34: reader regex `{rx.pattern}` is outside the supported subset: {e}")
+                if mode == "fullmatch" and not end:
+                    body = L_eps(ip.K)
+                    for l2, _g in items:
+                        body = body.concat(l2)
+                    L, end = L & body, True
+                sym.reader_lang = L
+                lead = L_all(ip.K) if (mode == "search" and not begin) else L_eps(ip.K)
+                tail = L_eps(ip.K) if end else L_all(ip.K)
+                subj = s.all
+                hit, miss = subj & L, subj - L
+                out = []
+                arg = node.args[0] if getattr(node, "args", None) else None
+                if not hit.is_empty():
+                    groups = {}
+                    whole = L_eps(ip.K)
+                    for i, (lang, g) in enumerate(items):
+                        whole = whole.concat(lang)
+                        if g is None:
+                            continue
+                        pre_l = lead
+                        for l2, _g in items[:i]:
+                            pre_l = pre_l.concat(l2)
+                        suf_l = L_eps(ip.K)
+                        for l2, _g in items[i + 1:]:
+                            suf_l = suf_l.concat(l2)
+                        groups[g] = AStr(lang & hit.lquot(pre_l).rquot(suf_l.concat(tail)))
+                    gs = tuple(groups[k] for k in sorted(groups))
+                    st2 = st.set(arg.id, AStr(hit)) if isinstance(arg, ast.Name) else st
+                    out.append((AObj("@match", groups=gs, whole=AStr(whole & hit.lquot(lead).rquot(tail))), st2))
+                if not miss.is_empty():
+                    st3 = st.set(arg.id, AStr(miss)) if isinstance(arg, ast.Name) else st
+                    out.append((None, st3))
+                return out
+
+            return h_match
 
         def h_groups(ip, node, args, kw, st):
             return [(args[0].attrs["groups"], st)]
 
         def h_group(ip, node, args, kw, st):
+            if len(args) > 2 or kw:
+                raise Unsupported("match.group with several indices")
             k = args[1] if len(args) > 1 else 0
-            if not isinstance(k, int) or k < 1:
-                raise Unsupported("match.group with a non-constant / zero index")
+            if k == 0 and isinstance(k, int) and not isinstance(k, bool):
+                return [(args[0].attrs["whole"], st)]  # the whole match
+            if not isinstance(k, int) or not 1 <= k <= len(args[0].attrs["groups"]):
+                raise Unsupported("match.group with a non-constant / out-of-range index")
             return [(args[0].attrs["groups"][k - 1], st)]
 
-        return {"Version": h_version, "re.compile": hook_re_compile, "@regex.match": h_match, "@regex.fullmatch": h_match,
-                "@match.groups": h_groups, "@match.group": h_group}
+        return {"Version": h_version, "re.compile": hook_re_compile, "@regex.match": mk_match("match"), "@regex.fullmatch": mk_match("fullmatch"),
+                "@regex.search": mk_match("search"), "@match.groups": h_groups, "@match.group": h_group}
 
     def run(self, fn: ast.AST, arg: object, n: int | None, pre: bool | None) -> tuple[DFA, list[str]]:
         """(language of returned strings, names of exceptions that can be raised)"""
@@ -371,19 +503,30 @@ def _call(ip: Interp, fn: ast.AST, arg: str):
         raise AnchorError(f"C34: `{fn.name}` uses a construct absint does not model: {e}")
 
 
-def finite_roundtrips(funcs: dict[str, ast.AST], consts: dict[str, ast.AST]) -> tuple[dict, dict, int]:
-    """failures of pep440->semver->pep440 per release length, failures of semver->pep440->semver, cases evaluated."""
+def finite_roundtrips(funcs: dict[str, ast.AST], consts: dict[str, ast.AST]) -> tuple[dict, dict, int, dict]:
+    """failures of pep440->semver->pep440 per release length, failures of semver->pep440->semver, cases evaluated, and
+    what the grid holds of the two situations a character-level confusion between the release and the pre-release part needs
+    in order to show: `shared` = pre-releases whose last release digit also occurs in the pre-release number (1.2.1rc1,
+    7.0a0, 0.10rc10), `zero` = all-zero releases with pre-release number 0 (0.0.0a0: nothing of the release is left if the
+    characters of the suffix are eaten)."""
     ip = _interp(consts, funcs)
     p2s, s2p = funcs[P2S], funcs[S2P]
-    vals = (0, 7, 10)
+    vals = (0, 1, 7, 10)
     pres = (None, ("a", 0), ("a", 4), ("b", 1), ("rc", 2), ("rc", 10))
     fail_p: dict[int, list[str]] = {n: [] for n in LENGTHS}
     cases = 0
+    grid = {"shared": 0, "zero": 0}
+
+    def tally(rel, pre) -> None:
+        if pre is not None:
+            grid["shared"] += str(rel[-1])[-1] in str(pre[1])
+            grid["zero"] += not any(rel) and pre[1] == 0
     for n in LENGTHS:
         for rel in itertools.product(vals, repeat=n):
             for pre in pres:
                 orig = ".".join(map(str, rel)) + ("" if pre is None else f"{pre[0]}{pre[1]}")
                 cases += 1
+                tally(rel, pre)
                 sem = _call(ip, p2s, orig)
                 back = _call(ip, s2p, sem) if isinstance(sem, str) and not sem.startswith("<raises") else sem
                 if back != orig:
@@ -401,11 +544,12 @@ def finite_roundtrips(funcs: dict[str, ast.AST], consts: dict[str, ast.AST]) -> 
         for pre in pres:
             orig = ".".join(map(str, rel)) + ("" if pre is None else f"-{pre[0]}.{pre[1]}")
             cases += 1
+            tally(rel, pre)
             pep = _call(ip, s2p, orig)
             back = _call(ip, p2s, pep) if isinstance(pep, str) and not pep.startswith("<raises") else pep
             if back != orig:
                 fail_s.append(f"{orig} -> {pep} -> {back}" if len(fail_s) < 3 else "")
-    return fail_p, {"semver": fail_s}, cases
+    return fail_p, {"semver": fail_s}, cases, grid
 
 
 def _module_env(consts: dict[str, ast.AST] | None, used: set[str]) -> dict:
@@ -496,9 +640,32 @@ def classify_all(fn: ast.AST, funcs: dict[str, ast.AST] | None = None, consts: d
 
 
 # ------------------------------------------------------------------------------ evaluation
-def eval_rules(funcs: dict[str, ast.AST], consts: dict[str, ast.AST], vfuncs: dict[str, ast.AST], vconsts: dict[str, ast.AST] | None = None):
+def computed_strips(nodes: list[ast.AST]) -> list[str]:
+    """Structural observation: calls of the strip family whose argument is not a literal (`version.rstrip(match.group())`,
+    `base.rstrip(num)`).  Not a verdict — the verdict is what the two interpreters compute with the character-set semantics —
+    but the place a maintainer should look at when a round trip fails: such a call reads like "remove this suffix / prefix"
+    and is "remove every end character that occurs in the argument"."""
+    out = []
+    for f in nodes:
+        matched = set()  # locals bound from a match object's group(..) / groups()
+        for x in ast.walk(f):
+            if isinstance(x, ast.Assign) and isinstance(x.value, ast.Call) and isinstance(x.value.func, ast.Attribute) and x.value.func.attr in ("group", "groups"):
+                matched |= {n.id for t in x.targets for n in ast.walk(t) if isinstance(n, ast.Name)}
+        for x in ast.walk(f):
+            if isinstance(x, ast.Call) and isinstance(x.func, ast.Attribute) and x.func.attr in _SI._STRIP_FAMILY and len(x.args) == 1 and not isinstance(x.args[0], ast.Constant):
+                a = x.args[0]
+                sub = (isinstance(a, ast.Call) and isinstance(a.func, ast.Attribute) and a.func.attr == "group") or (isinstance(a, ast.Name) and a.id in matched)
+                what = "a matched substring" if sub else "a computed string"
+                out.append(f"`{ast.unparse(x)[:70]}` ({f.name}, line {x.lineno}): str.{x.func.attr} deletes every end character that occurs in its argument "
+                           f"({what} used as a character set), it does not remove that {'prefix' if x.func.attr == 'lstrip' else 'suffix'}")
+    return out
+
+
+def eval_rules(funcs: dict[str, ast.AST], consts: dict[str, ast.AST], vfuncs: dict[str, ast.AST], vconsts: dict[str, ast.AST] | None = None, r2: bool = True):
     sym = _Sym(funcs, consts)
-    fail_p, fail_s, cases = finite_roundtrips(funcs, consts)
+    fail_p, fail_s, cases, grid = finite_roundtrips(funcs, consts)
+    strips = computed_strips([sym.p2s, sym.s2p] + _reachable_helpers(funcs, [sym.p2s, sym.s2p]))
+    hint = ("; look at " + "; ".join(strips)) if strips else ""
     # ---------------- pep440 -> semver -> pep440, per release length
     for n in LENGTHS:
         problems: list[str] = []
@@ -518,17 +685,14 @@ def eval_rules(funcs: dict[str, ast.AST], consts: dict[str, ast.AST], vfuncs: di
             if ff:
                 problems.append(f"finite round trip fails for {len(ff)} of the evaluated versions, e.g. {'; '.join(ff[:3])}")
             yield ("ob", "C34.R1", f"pep440->semver->pep440:release-len={n}", f"PEP 440 versions with {n} release component(s) survive the round trip through semver",
-                   False, sym.p2s, "; ".join(problems))
+                   False, sym.p2s, "; ".join(problems) + hint)
             continue
         # the reader on what the writer emits
         sym.reader_pattern = None
         o_pre, rexc = sym.run(sym.s2p, AStr(w_pre), None, None)
         if sym.reader_pattern is None:
             raise AnchorError("C34.R1: semver_to_pep440 no longer matches its input against a module-level regex")
-        try:
-            L = regex_match_lang(sym.A, sym.reader_pattern, strict_end=True)
-        except Unsupported as e:
-            raise AnchorError(f"C34.R1: reader regex outside the supported subset: {e}")
+        L = sym.reader_lang
         escaped = w_pre - L
         if not escaped.is_empty():
             problems.append(f"pre-release output {sym.show(escaped)} of pep440_to_semver is not matched by `{sym.reader_pattern}` and is passed through unconverted")
@@ -546,7 +710,7 @@ def eval_rules(funcs: dict[str, ast.AST], consts: dict[str, ast.AST], vfuncs: di
         if ff:
             problems.append(f"finite round trip fails for {len(ff)} of the evaluated versions, e.g. {'; '.join(ff[:3])}")
         yield ("ob", "C34.R1", f"pep440->semver->pep440:release-len={n}", f"PEP 440 versions with {n} release component(s) survive the round trip through semver",
-               not problems, sym.p2s, "; ".join(problems))
+               not problems, sym.p2s, "; ".join(problems) + (hint if problems else ""))
     # ---------------- semver -> pep440 -> semver
     problems = []
     for pre in (True, False):
@@ -564,9 +728,14 @@ def eval_rules(funcs: dict[str, ast.AST], consts: dict[str, ast.AST], vfuncs: di
     ff = fail_s["semver"]
     if ff:
         problems.append(f"finite round trip fails for {len(ff)} semver versions, e.g. {'; '.join(x for x in ff[:3] if x)}")
-    yield ("ob", "C34.R1", "semver->pep440->semver", "canonical semver versions N.N.N[-(a|b|rc).N] survive the round trip through PEP 440", not problems, sym.s2p, "; ".join(problems))
+    yield ("ob", "C34.R1", "semver->pep440->semver", "canonical semver versions N.N.N[-(a|b|rc).N] survive the round trip through PEP 440", not problems, sym.s2p, "; ".join(problems) + (hint if problems else ""))
     yield ("info", "roundtrip_cases", cases)
+    yield ("info", "shared_digit_cases", grid["shared"])
+    yield ("info", "all_zero_cases", grid["zero"])
+    yield ("info", "computed_strips", strips)
     # ---------------- R2
+    if not r2:
+        return
     if DCT not in vfuncs:
         raise AnchorError(f"function `{DCT}` not found")
     n, bad, undefined, multi = classify_all(vfuncs[DCT], vfuncs, vconsts)
@@ -596,6 +765,9 @@ def run(chk) -> None:
     for item in eval_rules(funcs, module_consts(cs), vfuncs, module_consts(vs)):
         if item[0] == "info":
             chk.extra[item[1]] = item[2]
+            if item[1] == "computed_strips":
+                for t in item[2]:
+                    chk.observe("strip-family call with a computed argument in a version converter: " + t)
             if item[1] == "undefined_cases" and item[2]:
                 chk.observe(f"pairs that are greater although the three leading release components are equal (4th component or rc -> final) are classified {item[2]}; the statement does not define this case")
             continue
@@ -603,23 +775,34 @@ def run(chk) -> None:
         nob += 1
         chk.ob(rule, desc, ok, m=cs if rule == "C34.R1" else vs, node=fn, fn=fn, instance=inst, reason=reason)
     chk.floor("C34.R1", "round-trip obligations (release lengths 1..4 + semver direction)", nob - 1, 5)
-    chk.floor("C34.R1", "versions evaluated in the finite round trip", chk.extra.get("roundtrip_cases", 0), 800)
+    chk.floor("C34.R1", "versions evaluated in the finite round trip", chk.extra.get("roundtrip_cases", 0), 2400)
+    chk.floor("C34.R1", "evaluated pre-releases whose last release digit also occurs in the pre-release number (1.1b1, 7.0a0, 0.10rc10)", chk.extra.get("shared_digit_cases", 0), 600)
+    chk.floor("C34.R1", "evaluated all-zero releases with pre-release number 0 (0.0.0a0, 0.0.0-a.0)", chk.extra.get("all_zero_cases", 0), 5)
     chk.floor("C34.R2", "ordered version pairs classified", chk.extra.get("classification_pairs", 0), 11000)
     chk.floor("C34.R2", "classified pairs in which two or three release components grow at once", chk.extra.get("multi_growth_pairs", 0), 1500)
     chk.exhaustive = True
-    # planted fixture
-    fpath = Path(__file__).resolve().parents[2] / FIXTURE
-    if not fpath.is_file():
-        raise AnchorError(f"fixture {FIXTURE} missing")
-    tree = ast.parse(fpath.read_text())
-    _set_parents(tree)
-    ff = {n.name: n for n in tree.body if isinstance(n, FuncNode)}
+    # planted fixtures
+    def fixture(rel: str, r2: bool = True) -> list[tuple]:
+        fpath = Path(__file__).resolve().parents[2] / rel
+        if not fpath.is_file():
+            raise AnchorError(f"fixture {rel} missing")
+        tree = ast.parse(fpath.read_text())
+        _set_parents(tree)
+        ff = {n.name: n for n in tree.body if isinstance(n, FuncNode)}
+        return [item for item in eval_rules(ff, _consts_of_tree(tree), ff, _consts_of_tree(tree), r2=r2) if item[0] == "ob" and not item[4]]
+
     bad: dict[str, int] = {}
-    for item in eval_rules(ff, _consts_of_tree(tree), ff, _consts_of_tree(tree)):
-        if item[0] == "ob" and not item[4]:
-            bad[item[1]] = bad.get(item[1], 0) + 1
+    for item in fixture(FIXTURE):
+        bad[item[1]] = bad.get(item[1], 0) + 1
     chk.floor("C34.R1", "planted defects reported in the fixture", bad.get("C34.R1", 0), 1)
     chk.floor("C34.R2", "planted defects reported in the fixture", bad.get("C34.R2", 0), 1)
+    # strip family with a computed argument: the planted form must be reported by BOTH halves of R1 (the languages computed
+    # with the character-set semantics leave the canonical form; the grid names concrete versions), for every release length and
+    # the semver direction; the harmless form (character sets that cannot meet the receiver's ends) by nothing
+    failed = fixture(FIXTURE_STRIP, r2=False)
+    chk.floor("C34.R1", "planted `version.rstrip(match.group())`: obligations reported by the symbolic AND the finite half",
+              sum(1 for it in failed if it[1] == "C34.R1" and "canonical" in it[6] and "finite round trip fails" in it[6] and "rstrip" in it[6]), 5)
+    chk.floor("C34.R1", "harmless computed strips (`base.rstrip(label)`, `num.lstrip(label)`) evaluated and accepted", int(not fixture(FIXTURE_HARMLESS, r2=False)), 1)
     chk.observe("pep440_to_semver drops the epoch (1!1.2.3b1 -> 1.2.3-b.1): epochs are outside the stated quantifier")
 
 
@@ -642,7 +825,27 @@ _PAT = '    if current_release[2] > previous_release[2]:\n        return "patch"
 _LADDER = _MAJ + _MIN + _PAT + '    return "minor"\n'
 _TABLE = '_COMPONENTS = ("major", "minor", "patch")\n\n\n'
 _GROWN = '    grown = [\n        name\n        for name, cur, prev in zip(_COMPONENTS, current_release, previous_release)\n        if cur > prev\n    ]\n'
+_RET = '    return f"{base}{label}{num}"\n'
+_SUFFIX_RX = '_SEMVER_PRERELEASE_RE = re.compile(r"-([a-zA-Z]+)\\.(\\d+)$")'
+
+
+def _suffix_only(strip_call: str) -> tuple[str, str]:
+    """the reader matches only the `-<label>.<num>` suffix with .search and takes the base by `strip_call`"""
+    from ..selftest import multi
+    return multi(_CH, [(_RX, _SUFFIX_RX), ("_SEMVER_PRERELEASE_RE.match(version)", "_SEMVER_PRERELEASE_RE.search(version)"),
+                       ("    base, label, num = match.groups()\n", "    label, num = match.groups()\n"), (_RET, f"    base = {strip_call}\n" + _RET)])
+
+
 TWINS: list[Twin] = [
+    # ---- R1: strip family with a computed argument (a character set, not a suffix / prefix)
+    Twin("suffix-only regex with .search, base = version.rstrip(match.group()) (1.2.1-rc.1 -> 1.2rc1, 0.0.0-a.0 -> a0)", _CH, *_suffix_only("version.rstrip(match.group())"), "C34.R1"),
+    Twin("the same with strip() and group(0)", _CH, *_suffix_only("version.strip(match.group(0))"), "C34.R1"),
+    Twin("base stripped of the pre-release number's characters (1.2.1-rc.1 -> 1.2.rc1)", _CH, _RET, "    base = base.rstrip(num)\n" + _RET, "C34.R1"),
+    Twin("number left-stripped of the base's characters (1.2.3-rc.1 -> 1.2.3rc)", _CH, _RET, "    num = num.lstrip(base)\n" + _RET, "C34.R1"),
+    Twin("benign: computed strips whose character set cannot meet the receiver's ends", _CH, _RET, "    base = base.rstrip(label)\n    num = num.lstrip(label)\n" + _RET, None),
+    Twin("benign: strip argument computed from constants", _CH, _RET, '    base = base.rstrip("-" + ".")\n' + _RET, None),
+    Twin("benign: anchored regex applied with .search", _CH, "_SEMVER_PRERELEASE_RE.match(version)", "_SEMVER_PRERELEASE_RE.search(version)", None),
+    Twin("benign: anchored regex applied with .fullmatch", _CH, "_SEMVER_PRERELEASE_RE.match(version)", "_SEMVER_PRERELEASE_RE.fullmatch(version)", None),
     # ---- R1 breaking
     Twin("regex wants two components", _CH, _RX, _RX.replace(_REL, "(\\d+\\.\\d+)"), "C34.R1"),
     Twin("regex rejects a leading zero component", _CH, _RX, _RX.replace(_REL, "([1-9]\\d*(?:\\.\\d+)*)"), "C34.R1"),
